@@ -17,6 +17,11 @@ EXTENDS Integers, Sequences, FiniteSets, TLC
 
 \* The key universe, in ascending byte order.  A model picks KeyIdx \subseteq 1..9.
 U == << <<>>, <<0>>, <<0, 0>>, <<1>>, <<1, 0>>, <<1, 2>>, <<2>>, <<3>>, <<3, 3>> >>
+\* a second universe (configuration override U <- UCarry): keys that end in the largest symbol right before a key
+\* that is their "incremented prefix" (<<0, 3>> then <<1>>; <<1, 3>> then <<2>>) - with a byte table whose codes are
+\* consecutive and whose largest code is 0xff this is where an upper bound computed by incrementing a prefix goes
+\* wrong when the carry is not truncated
+UCarry == << <<>>, <<0>>, <<0, 3>>, <<1>>, <<1, 0>>, <<1, 3>>, <<2>>, <<3>>, <<3, 3>> >>
 
 RECURSIVE LexLess(_, _)
 LexLess(a, b) ==
